@@ -369,6 +369,8 @@ def jobs(tier, seed):
     # ARM A32: one optimisation level per program in quick (alternating 0 / 2 with the seed), 0, 2 and one of 1/s (rotating) in thorough
     for n, p in enumerate(_c05progs.names(tier, "arm")):
         lvls = ["2" if (n + seed) % 2 else "0"] if tier == "quick" else ["0", "2", ("1", "s")[(n + seed) % 2]]
+        if tier == "quick" and _c05progs.family(p) == "s":
+            lvls = ["0", "2"]       # ABI / frame / register-pressure shapes: both levels also in quick
         for lv in lvls:
             js.append(("mk_code", dict(prog=p, level=lv, march="arm")))
         if tier != "quick" and _c05progs.family(p) in ("n", "u", "c"):
